@@ -64,6 +64,7 @@ func (Engine) Execute(planJSON json.RawMessage, scratch string) (res sim.RunResu
 	simrt.Start(p.Seed^p.SchedSeed, time.Unix(1_700_000_000, 0))
 	simrt.SetKnobs(p.Knobs.SnapEvery, p.Knobs.CleanupMinFree)
 	simrt.SetNumCPU(p.Knobs.NumCPU)
+	simrt.SetYield(p.Yield)
 	defer simrt.Stop()
 
 	s.capt = netsim.Build(&p.Net)
@@ -272,7 +273,7 @@ func (s *Sim) shutdown() {
 // killJobs makes every parked job goroutine leave through Goexit.
 func (s *Sim) killJobs() {
 	for _, j := range append([]*jobRec(nil), s.jobs...) {
-		if j.state == jBegin || j.state == jPost {
+		if j.state == jBegin || j.state == jPost || j.state == jMid {
 			simrt.Release(j.wfd, true)
 		}
 	}
